@@ -3,6 +3,8 @@ import PetgraphModel.Proofs.C15Flow
 import PetgraphModel.Proofs.C15Greedy
 import PetgraphModel.Proofs.C15FlowModel
 import PetgraphModel.Proofs.C15W2Hyp
+import PetgraphModel.Proofs.C15W5Main
+import PetgraphModel.Proofs.C15W5BarrierLabels
 /-
 C15 — `maximum_matching` is maximum, `greedy_matching` valid, `ford_fulkerson` a maximum flow.
 
@@ -12,9 +14,13 @@ Part 2: theorems over the mirror models of `Model/C15Matching.lean` for all view
 consistency, validity of `greedy_matching`).
 Part 3: Gabow's `maximum_matching`: the original full statements as `_statement` (both false as written
 for views with a stale index-map entry, see the `_false_witness` theorems), the validity clause proved
-with the vacancy hypothesis added (`C15_maximum_valid`, wave 2, `Proofs/C15W2*.lean`), the maximality
-clause still judged per run (`C15_maximum_partial`, `C15_maximum_maximum_partial2`), and the D25
+with the vacancy hypothesis added (`C15_maximum_valid`, wave 2, `Proofs/C15W2*.lean`), the earlier partial
+results on the maximality clause (`C15_maximum_partial`, `C15_maximum_maximum_partial2`), and the D25
 witness on the model.
+Part 4: the maximality clause PROVED for undirected storage with the vacancy hypothesis added
+(`C15_maximum_maximum`, wave 5, `Proofs/C15W5*.lean`), with the ladder it rests on: Berge's theorem,
+failed roots stay failed, the Tutte–Berge bound with a sound certificate checker, completeness of one
+search of Gabow's labelling.
 Part 2b (at the end of the file): the Edmonds–Karp mirror model of `Model/C15Flow.lean` returns a
 feasible maximum flow and the capacity of a minimum cut, for all views and non-negative integer
 capacities.
@@ -279,10 +285,10 @@ theorem C15_maximum_valid_statement_false_witness : ¬ C15_maximum_valid_stateme
   rw [hf] at this
   cases this
 
-/-- `maximum_matching` returns a maximum matching on undirected storage: full statement (not
-proved: the correctness proof of Gabow's labelling algorithm is out of reach here; judged per run
-against `maxMatchingSize`, whose correctness is proved above).  On directed storage the statement is
-false for the code as it stands (open finding D25). -/
+/-- `maximum_matching` returns a maximum matching on undirected storage: full statement as first
+written.  It is false as written (`C15_maximum_maximum_statement_false_witness`: a view with a stale
+index-map entry); with the hypothesis `VacOk` added it is PROVED: `C15_maximum_maximum` (Part 4).
+On directed storage the statement is false for the code as it stands (open finding D25). -/
 def C15_maximum_maximum_statement : Prop :=
   ∀ (v : View) (mode : Nat), IxOk v → v.g.WellFormed → ViewExact v → v.g.directed = false →
     IsMaximumMatching v.g (pairsOf (mateTable v (maximumMatching v mode)))
@@ -313,7 +319,7 @@ def staleIxView2 : View :=
 `C15_maximum_valid_statement`: on `staleIxView2` (undirected, all hypotheses hold) the search "from the
 vacant index 4" starts at the matched node `2` and matches the free node `1` to it as well, so the
 returned pairs `0-2`, `1-2` are not a matching.  With `VacOk` added the validity part is
-`C15_maximum_valid`; the maximality part remains open (`C15_maximum_maximum_partial2`). -/
+`C15_maximum_valid` and the maximality part is `C15_maximum_maximum` (Part 4). -/
 theorem C15_maximum_maximum_statement_false_witness : ¬ C15_maximum_maximum_statement := by
   intro h
   have h1 : ixOkB staleIxView2 = true := by decide
@@ -331,11 +337,12 @@ mirror model form a matching of the graph, their number is `len()`, it is at lea
 of the greedy matching the search starts from (every search either leaves `mate` alone or adds one
 edge), at most the definitional maximum, and the result is a maximum matching exactly if the per-run
 judge `len = maxMatchingSize` accepts.
-Still missing for `C15_maximum_maximum_statement` (undirected storage): that a search which ends
-without an augmentation certifies that no augmenting path starts at its start vertex (completeness
-of Gabow's labelling: every edge out of an outer vertex has been scanned and leads to an outer
-vertex or to the mate of one, the blossoms are odd and closed), that this survives later
-augmentations, and Berge's theorem; none of this is formalised. -/
+What was still missing here for undirected storage — that a search which ends without an augmentation
+certifies that no augmenting path starts at its start vertex (completeness of Gabow's labelling: every
+edge out of an outer vertex has been scanned and leads to an outer vertex or to the mate of one, the
+blossoms are odd and closed), that this survives later augmentations, and Berge's theorem — is
+formalised in wave 5: `C15_search_complete`, `C15_failed_roots_stay_failed`, `C15_berge`, and the
+composition `C15_maximum_maximum` (Part 4). -/
 theorem C15_maximum_maximum_partial2 (v : View) (mode : Nat) (hix : IxOk v) (hwf : v.g.WellFormed)
     (hex : ViewExact v) (hvac : C15W2.VacOk v) :
     IsMatching v.g (pairsOf (mateTable v (maximumMatching v mode))) ∧
@@ -379,6 +386,179 @@ theorem C15_maximum_directed_counterexample :
     checkMate d25View.g (mateTable d25View (maximumMatching d25View 0)) = true ∧
     (pairsOf (mateTable d25View (maximumMatching d25View 0))).length = 1 ∧
     maxMatchingSize d25View.g = 2 := by decide +kernel
+
+/-! ## Part 4 — maximality of `maximum_matching` (wave 5, `Proofs/C15W5*.lean`)
+
+The ladder: Berge's theorem (R1), failed roots stay failed (R2), the easy direction of the Tutte–Berge
+formula with a proved-sound certificate checker (R3), completeness of one search of the Gabow mirror
+model (R4), and the composition (R5): on undirected storage the model returns a maximum matching. -/
+
+open PetgraphModel.C15W5 in
+/-- **R1, Berge's theorem** (matchings as lists of node pairs of an `MGraph`, direction ignored): a
+matching is maximum iff it has no augmenting path (`AugPath`: a simple path with at least one edge whose
+edges are alternately outside and inside `M`, starting outside, both end nodes not covered by `M`). -/
+theorem C15_berge (g : MGraph) (M : List (Nat × Nat)) (hM : IsMatching g M) :
+    IsMaximumMatching g M ↔ ∀ p, ¬ AugPath g M p :=
+  berge g M hM
+
+open PetgraphModel.C15W5 in
+/-- R1, the constructive half: flipping an augmenting path gives a matching with one more pair that covers
+everything `M` covers and both ends of the path -/
+theorem C15_augment_exists (g : MGraph) (M : List (Nat × Nat)) (p : List Nat) (hM : IsMatching g M)
+    (hp : AugPath g M p) :
+    ∃ N, IsMatching g N ∧ N.length = M.length + 1 ∧ (∀ a, Covered M a → Covered N a) ∧
+      (∀ a, p.head? = some a → Covered N a) ∧ (∀ a, p.getLast? = some a → Covered N a) :=
+  augment_exists g M p hM hp
+
+open PetgraphModel.C15W5 in
+/-- R1, the hard half: a larger matching yields an augmenting path -/
+theorem C15_augPath_of_larger (g : MGraph) (M N : List (Nat × Nat)) (hM : IsMatching g M) (hN : IsMatching g N)
+    (hlt : M.length < N.length) : ∃ p, AugPath g M p :=
+  augPath_of_larger g M N hM hN hlt
+
+open PetgraphModel.C15W5 in
+/-- **R2, failed roots stay failed** (what justifies one search per free vertex): if no `M`-augmenting
+path starts at `u` and `M'` is a matching that covers every node `M` covers — in particular `M'` = `M`
+flipped along ANY `M`-augmenting path (`C15_augment_exists`; such a path cannot pass through `u`) — then
+no `M'`-augmenting path starts at `u`. -/
+theorem C15_failed_roots_stay_failed (g : MGraph) (M M' : List (Nat × Nat)) (hM : IsMatching g M)
+    (hM' : IsMatching g M') (hcov : ∀ a, Covered M a → Covered M' a) (u : Nat) (hu : NoAugFrom g M u) :
+    NoAugFrom g M' u :=
+  noAugFrom_persist g M M' hM hM' hcov u hu
+
+open PetgraphModel.C15W5 in
+/-- for a free node, "no augmenting path starts at `u`" and "no matching covers `u` together with
+everything `M` covers" are the same -/
+theorem C15_noAugFrom_iff_noExt (g : MGraph) (M : List (Nat × Nat)) (hM : IsMatching g M) (u : Nat)
+    (hu : ¬ Covered M u) : NoAugFrom g M u ↔ NoExt g M u :=
+  noAugFrom_iff_noExt g M hM u hu
+
+open PetgraphModel.C15W5 in
+/-- **R3, Tutte–Berge, easy direction** ("blocks" form): if the nodes outside `A` are labelled so that no
+non-loop edge joins two of them with different labels (e.g. by connected component of `G − A`), then for
+every matching `N`: `2|N| + #(listed odd classes) ≤ |V| + |A|`. -/
+theorem C15_tutte_berge_easy (g : MGraph) (hwf : g.WellFormed) (N : List (Nat × Nat)) (hN : IsMatching g N)
+    (A : List Nat) (hA : A.Nodup) (hAsub : ∀ a ∈ A, a ∈ g.nodes) (lab : Nat → Nat)
+    (hlab : ∀ a b, Joined g a b → a ∉ A → b ∉ A → lab a = lab b)
+    (labels : List Nat) (hlabels : labels.Nodup)
+    (hodd : ∀ ℓ ∈ labels, (g.nodes.filter fun x => decide (x ∉ A) && lab x == ℓ).length % 2 = 1) :
+    2 * N.length + labels.length ≤ g.nodes.length + A.length :=
+  tutte_berge_easy g hwf N hN A hA hAsub lab hlab labels hlabels hodd
+
+/-- **R3, the certificate checker is sound**: `checkBarrier g M A` (executable, `Oracle/C15Barrier.lean`:
+`g` well formed, `M` a matching, `A` a duplicate-free set of nodes, a re-verified labelling of `G − A`, and
+`|V| + |A| ≤ 2|M| + #odd classes`) accepts only maximum matchings, and then `|M| = maxMatchingSize g`. -/
+theorem C15_checkBarrier_sound (g : MGraph) (M : List (Nat × Nat)) (A : List Nat)
+    (h : checkBarrier g M A = true) : IsMaximumMatching g M ∧ M.length = maxMatchingSize g :=
+  ⟨C15W5.checkBarrier_sound g M A h, C15W5.checkBarrier_size g M A h⟩
+
+/-- the star `K_{1,3}` -/
+def starGraph : MGraph :=
+  { directed := false, nodes := [0, 1, 2, 3], edges := [⟨0, 0, 1, 1⟩, ⟨1, 0, 2, 1⟩, ⟨2, 0, 3, 1⟩] }
+
+/-- the centre of the star is a barrier for a one-pair matching, the empty set is not; a non-maximum
+matching of a path has no barrier -/
+example : checkBarrier starGraph [(0, 1)] [0] = true ∧ checkBarrier starGraph [(0, 1)] [] = false := by decide
+
+/-- on undirected storage the exact rows are complete: joined nodes appear in each other's row -/
+theorem viewExact_comp (v : View) (hex : ViewExact v) (hund : v.g.directed = false) : C15W5.VComp v := by
+  refine ⟨?_⟩
+  intro a b hJ
+  obtain ⟨_, e, he, hh⟩ := hJ
+  obtain ⟨h1, h2⟩ := hex.out_complete e he
+  rcases hh with ⟨e1, e2⟩ | ⟨e1, e2⟩
+  · exact ⟨e.id, by rw [← e1, ← e2]; exact h1⟩
+  · exact ⟨e.id, by rw [← e1, ← e2]; exact h2 hund⟩
+
+theorem viewExact_sound (v : View) (hex : ViewExact v) : ViewSound v := by
+  intro a b hb
+  unfold View.succ at hb
+  obtain ⟨p, hp, rfl⟩ := List.mem_map.mp hb
+  obtain ⟨e, he, _, hh⟩ := hex.out_sound a p.1 p.2 hp
+  exact ⟨e, he, hh⟩
+
+open PetgraphModel.C15W5 in
+/-- **R4, completeness of one search** (the Gabow mirror model, blossoms included; undirected storage):
+let `s` be a state between two searches (`BInv`: no fault, `mate` a valid matching with `n` pairs, all
+labels `None`) and `u` a live node whose `mate` entry is `None`.  After `gabowSearch` from the index of `u`
+either `u` is matched, or `mate` is unchanged and NO AUGMENTING PATH with respect to the matching that
+`mate` stands for starts at `u`.
+Proof: at the end of a search without augmentation the queue is empty within the fuel `node_bound + 2`,
+every outer vertex has been scanned, every neighbour of an outer vertex is outer with the same
+`first_inner` entry or is non-outer with an outer mate; the classes of `first_inner` (the blossoms) of the
+dummy entry and of every such non-outer vertex are odd, so they form a Tutte–Berge barrier for the start
+vertex (`Proofs/C15W5Cert.lean`, `failed_noExt`). -/
+theorem C15_search_complete (v : View) (mode : Nat) (hix : IxOk v) (hwf : v.g.WellFormed) (hex : ViewExact v)
+    (hvac : C15W2.VacOk v) (hund : v.g.directed = false) (s : GS) (n : Nat) (hB : C15W2.BInv v s n)
+    (u : Nat) (hu : u ∈ v.g.nodes) (hfree : getM s.mate (v.toIndex u) = none) :
+    (getM (gabowSearch v mode (v.toIndex u) s n).1.mate (v.toIndex u)).isSome = true ∨
+    ((gabowSearch v mode (v.toIndex u) s n).1.mate = s.mate ∧
+      NoAugFrom v.g (pairsOf (mateTable v (matchingOf v s n))) u) :=
+  gabowSearch_noAug v mode (C15W2.VHyp.of_exact v mode hix hwf hex.ids hex.out_sound hvac)
+    (viewExact_comp v hex hund) s n hB (v.toIndex u) (hix.lt u hu) hfree u hu rfl
+
+/-- **R5, `maximum_matching` (the Gabow mirror model) returns a MAXIMUM matching on undirected storage**:
+`C15_maximum_maximum_statement` with the hypothesis `VacOk` added (without it the statement is false,
+`C15_maximum_maximum_statement_false_witness`; on directed storage it is false for the code as it stands,
+`C15_maximum_directed_counterexample`, finding D25).  For every `mode` of comparing edge ids.
+Proof: every search either augments — no `mate` entry is cleared and the start vertex gets matched — or
+certifies that its start vertex cannot be matched in addition to the vertices matched so far
+(`C15_search_complete`); the certificate survives later augmentations because the covered set only
+grows (`C15_failed_roots_stay_failed`); at the end every free node carries a certificate and Berge's
+theorem (`C15_berge`) makes the matching maximum. -/
+theorem C15_maximum_maximum (v : View) (mode : Nat) (hix : IxOk v) (hwf : v.g.WellFormed) (hex : ViewExact v)
+    (hvac : C15W2.VacOk v) (hund : v.g.directed = false) :
+    IsMaximumMatching v.g (pairsOf (mateTable v (maximumMatching v mode))) :=
+  C15W5.maximumMatching_maximum v mode (C15W2.VHyp.of_exact v mode hix hwf hex.ids hex.out_sound hvac)
+    (viewExact_sound v hex) hwf (viewExact_comp v hex hund)
+
+/-- the per-run judge `len = maxMatchingSize` always accepts the model's answer on undirected storage -/
+theorem C15_maximum_len_eq_max (v : View) (mode : Nat) (hix : IxOk v) (hwf : v.g.WellFormed)
+    (hex : ViewExact v) (hvac : C15W2.VacOk v) (hund : v.g.directed = false) :
+    (maximumMatching v mode).len = maxMatchingSize v.g := by
+  have h := C15_maximum_maximum_partial2 v mode hix hwf hex hvac
+  rw [← h.2.1]
+  exact C15_maximum_judge_complete _ _ (C15_maximum_maximum v mode hix hwf hex hvac hund)
+
+/-- the same from executable checks of the hypotheses -/
+theorem C15_maximum_maximum_checked (v : View) (mode : Nat) (h1 : ixOkB v = true) (h2 : wfB v.g = true)
+    (h3 : C15W2.viewExactB v = true) (h4 : C15W2.vacOkB v = true) (h5 : v.g.directed = false) :
+    (maximumMatching v mode).fault = false ∧
+    IsMaximumMatching v.g (pairsOf (mateTable v (maximumMatching v mode))) ∧
+    (maximumMatching v mode).len = maxMatchingSize v.g :=
+  ⟨(C15_maximum_valid_checked v mode h1 h2 h3 h4).1,
+   C15_maximum_maximum v mode (ixOkB_sound v h1) (wfB_sound v.g h2) (viewExactB_sound v h3)
+     (C15W2.vacOkB_sound v h4) h5,
+   C15_maximum_len_eq_max v mode (ixOkB_sound v h1) (wfB_sound v.g h2) (viewExactB_sound v h3)
+     (C15W2.vacOkB_sound v h4) h5⟩
+
+/-- non-vacuity: the hypotheses of `C15_maximum_maximum` hold for the example view (a triangle with a
+pendant node, a vacancy at index 1), and the model finds the two pairs -/
+example : ixOkB exampleView = true ∧ wfB exampleView.g = true ∧ C15W2.viewExactB exampleView = true ∧
+    C15W2.vacOkB exampleView = true ∧ exampleView.g.directed = false ∧
+    (maximumMatching exampleView 0).len = 2 := by decide +kernel
+
+example : IsMaximumMatching exampleView.g (pairsOf (mateTable exampleView (maximumMatching exampleView 0))) :=
+  (C15_maximum_maximum_checked exampleView 0 (by decide) (by decide) (by decide) (by decide) (by decide)).2.1
+
+
+/-- a triangle `0-1-2` with the pendant edge `1-3`, in an iteration order in which the greedy matching
+takes `0-1` only: the search from node `2` labels `0`, `1` through the blossom `0-1-2` before it reaches
+the free node `3` -/
+def blossomView : View :=
+  { g := { directed := false, nodes := [0, 1, 2, 3],
+           edges := [⟨0, 0, 1, 1⟩, ⟨1, 0, 2, 1⟩, ⟨2, 1, 2, 1⟩, ⟨3, 1, 3, 1⟩] },
+    nb := 4, ix := [(0, 0), (1, 1), (2, 2), (3, 3)],
+    out := [(0, [(1, 0), (2, 1)]), (1, [(0, 0), (2, 2), (3, 3)]), (2, [(0, 1), (1, 2)]), (3, [(1, 3)])],
+    inn := [(0, [(1, 0), (2, 1)]), (1, [(0, 0), (2, 2), (3, 3)]), (2, [(0, 1), (1, 2)]), (3, [(1, 3)])] }
+
+/-- non-vacuity with a blossom: the hypotheses of `C15_maximum_maximum` hold for `blossomView`, the greedy
+matching has one pair, the Gabow model finds two (for every way of comparing edge ids) -/
+example : ixOkB blossomView = true ∧ wfB blossomView.g = true ∧ C15W2.viewExactB blossomView = true ∧
+    C15W2.vacOkB blossomView = true ∧ blossomView.g.directed = false ∧
+    (greedyInner blossomView).nEdges = 1 ∧ (maximumMatching blossomView 0).len = 2 ∧
+    (maximumMatching blossomView 1).len = 2 ∧ (maximumMatching blossomView 2).len = 2 ∧
+    maxMatchingSize blossomView.g = 2 := by decide +kernel
 
 /-! ## Part 2b — the Edmonds–Karp model is a maximum-flow algorithm (all views, integer capacities) -/
 
